@@ -314,10 +314,22 @@ class PythonTemplater(RawTemplater):
                         )
                     )
 
-                return raw_str_with_dot_notation_hack.format_map(fallback_context)
+                try:
+                    return raw_str_with_dot_notation_hack.format_map(fallback_context)
+                except (IndexError, ValueError, TypeError, AttributeError) as err:
+                    raise SQLTemplaterError(
+                        f"Failure in Python templating: invalid format string: {err}"
+                    )
 
             try:
                 rendered_str = raw_str_with_dot_notation_hack.format(**live_context)
+            except (IndexError, ValueError, TypeError, AttributeError) as err:
+                # Malformed format strings (e.g. a lone brace, positional
+                # fields like ``{}`` or ``{0}``, bad conversions or format
+                # specs) are templating errors, not crashes.
+                raise SQLTemplaterError(
+                    f"Failure in Python templating: invalid format string: {err}"
+                )
             except KeyError as err:
                 missing_key = err.args[0]
                 if missing_key == "sqlfluff":
